@@ -323,33 +323,43 @@ Section Sem.
   Qed.
 End Sem.
 
+Lemma Some_inj_l {A} (x y : A) : Some x = Some y -> x = y.
+Proof. congruence. Qed.
+
 (** ** Checking a traced DAG against a claimed summary *)
 Section Check.
   Variables (nv nc N : nat).       (* arguments, cut atoms, all atoms (args ++ cuts ++ coefficients) *)
   Definition unitb_of (i : nat) : bool := (nv <=? i)%nat && (i <? nv + nc)%nat.
   Variable defs : list poly.       (* claimed polynomial of each cut atom *)
 
-  Definition step (env : list poly) (n : node) : option poly :=
+  (** environment entries: [Some p] = the node is the polynomial p; [None] = opaque (sqrt, exp
+      and whatever is computed from them).  Outer [None] of [step] = the check fails. *)
+  Definition bin (f : poly -> poly -> option poly) (x y : option (option poly)) : option (option poly) :=
+    match x, y with
+    | Some (Some a), Some (Some b) => match f a b with Some r => Some (Some r) | None => None end
+    | Some _, Some _ => Some None
+    | _, _ => None
+    end.
+
+  Definition step (env : list (option poly)) (n : node) : option (option poly) :=
     let g := nth_error env in
     match n with
-    | NConst q _ => Some (pconst N q)
-    | NVar i => if (i <? nv)%nat && (i <? N)%nat then Some (patom N i) else None
-    | NCoef k => if (nv + nc + k <? N)%nat then Some (patom N (nv + nc + k)) else None
-    | NAdd a b => match g a, g b with Some x, Some y => Some (pclean (padd x y)) | _, _ => None end
-    | NSub a b => match g a, g b with Some x, Some y => Some (pclean (padd x (pneg y))) | _, _ => None end
-    | NMul a b => match g a, g b with Some x, Some y => Some (pclean (pmul x y)) | _, _ => None end
-    | NDiv a b => match g a, g b with
-                  | Some x, Some y => match pinv unitb_of y with Some yi => Some (pclean (pmul x yi)) | None => None end
-                  | _, _ => None end
-    | NNeg a => match g a with Some x => Some (pneg x) | None => None end
-    | NSqrt _ | NExp _ => None
+    | NConst q _ => Some (Some (pconst N q))
+    | NVar i => if (i <? nv)%nat && (i <? N)%nat then Some (Some (patom N i)) else None
+    | NCoef k => if (nv + nc + k <? N)%nat then Some (Some (patom N (nv + nc + k))) else None
+    | NAdd a b => bin (fun x y => Some (pclean (padd x y))) (g a) (g b)
+    | NSub a b => bin (fun x y => Some (pclean (padd x (pneg y)))) (g a) (g b)
+    | NMul a b => bin (fun x y => Some (pclean (pmul x y))) (g a) (g b)
+    | NDiv a b => bin (fun x y => match pinv unitb_of y with Some yi => Some (pclean (pmul x yi)) | None => None end) (g a) (g b)
+    | NNeg a => match g a with Some (Some x) => Some (Some (pneg x)) | Some None => Some None | None => None end
+    | NSqrt a | NExp a => match g a with Some _ => Some None | None => None end
     | NCut atom a => match g a, nth_error defs atom with
-                     | Some x, Some d => if (atom <? nc)%nat && (nv + atom <? N)%nat && peqb x d
-                                         then Some (patom N (nv + atom)) else None
+                     | Some (Some x), Some d => if (atom <? nc)%nat && (nv + atom <? N)%nat && peqb x d
+                                                then Some (Some (patom N (nv + atom))) else None
                      | _, _ => None end
     end.
 
-  Fixpoint run (env : list poly) (ns : list node) : option (list poly) :=
+  Fixpoint run (env : list (option poly)) (ns : list node) : option (list (option poly)) :=
     match ns with
     | [] => Some env
     | n :: r => match step env n with Some p => run (p :: env) r | None => None end
@@ -359,12 +369,12 @@ Section Check.
   Definition check_dag (ns : list node) (outs : list (nat * poly)) : bool :=
     match run [] ns with
     | Some env => forallb (fun o => match nth_error env (fst o) with
-                                    | Some p => peqb p (snd o) | None => false end) outs
+                                    | Some (Some p) => peqb p (snd o) | _ => false end) outs
     | None => false
     end.
 
   (** the polynomials the DAG actually produces (for reports; not used in proofs) *)
-  Definition summarise (ns : list node) (poss : list nat) : option (list (option poly)) :=
+  Definition summarise (ns : list node) (poss : list nat) : option (list (option (option poly))) :=
     match run [] ns with
     | Some env => Some (map (nth_error env) poss)
     | None => None
@@ -382,61 +392,69 @@ Section Check.
     Notation den := (dpoly rho).
     Definition evR := eval_node 0%R (fun q _ => Q2R q) Rplus Rminus Rmult Rdiv Ropp sqrt exp var coef.
 
-    Definition agree (ps : list poly) (vs : list R) : Prop :=
-      Forall2 (fun p v => ok p = true /\ den p = v) ps vs.
+    Definition good (op : option poly) (v : R) : Prop :=
+      match op with Some p => ok p = true /\ den p = v | None => True end.
+    Definition agree (ps : list (option poly)) (vs : list R) : Prop := Forall2 good ps vs.
 
-    Lemma agree_nth ps vs a x : agree ps vs -> nth_error ps a = Some x ->
+    Lemma agree_nth ps vs a x : agree ps vs -> nth_error ps a = Some (Some x) ->
       ok x = true /\ den x = nth a vs 0%R.
     Proof.
-      intros H. revert a. induction H as [|p v ps vs [H1 H2] _ IH]; intros [|a] E; cbn in E; try discriminate.
-      - injection E as <-. cbn. auto.
+      intros H. revert a. induction H as [|p v ps vs Hg _ IH]; intros [|a] E; cbn in E; try discriminate.
+      - injection E as ->. cbn. exact Hg.
       - cbn [nth]. apply IH. exact E.
     Qed.
 
-    Lemma step_sound ps vs n p : agree ps vs -> step ps n = Some p ->
-      ok p = true /\ den p = evR vs n.
+    Lemma bin_sound (f : poly -> poly -> option poly) (opR : R -> R -> R) ps vs a b r :
+      agree ps vs ->
+      (forall x y z, ok x = true -> ok y = true -> f x y = Some z -> ok z = true /\ den z = opR (den x) (den y)) ->
+      bin f (nth_error ps a) (nth_error ps b) = Some r ->
+      good r (opR (nth a vs 0%R) (nth b vs 0%R)).
+    Proof.
+      intros Hag Hf. unfold bin.
+      destruct (nth_error ps a) as [[x|]|] eqn:Ea; destruct (nth_error ps b) as [[y|]|] eqn:Eb;
+        try discriminate; try (intros E; apply Some_inj_l in E; subst r; exact I).
+      destruct (f x y) as [z|] eqn:Ez; [|discriminate]. intros E. apply Some_inj_l in E. subst r.
+      destruct (agree_nth _ _ _ _ Hag Ea) as [A1 A2]. destruct (agree_nth _ _ _ _ Hag Eb) as [B1 B2].
+      destruct (Hf x y z A1 B1 Ez) as [Z1 Z2]. cbn [good]. rewrite Z2, A2, B2. auto.
+    Qed.
+
+    Lemma step_sound ps vs n r : agree ps vs -> step ps n = Some r -> good r (evR vs n).
     Proof.
       intros Hag. unfold evR.
       destruct n as [q f|i|k|a b|a b|a b|a b|a|a|a|atom a]; cbn [step eval_node]; unfold get.
-      - intros [= <-]. destruct (pconst_sound rho unitb_of N q) as [A B]. auto.
-      - destruct ((i <? nv)%nat && (i <? N)%nat) eqn:E; [|discriminate]. intros [= <-].
+      - intros E. apply Some_inj_l in E. subst r. destruct (pconst_sound rho unitb_of N q) as [A B]. cbn [good]. auto.
+      - destruct ((i <? nv)%nat && (i <? N)%nat) eqn:E; [|discriminate]. intros E'. apply Some_inj_l in E'. subst r.
         apply andb_true_iff in E as [E0 E]. apply Nat.ltb_lt in E, E0.
-        destruct (patom_sound rho unitb_of N i E) as [A B]. rewrite <- (rho_var i E0). auto.
-      - destruct (nv + nc + k <? N)%nat eqn:E; [|discriminate]. intros [= <-]. apply Nat.ltb_lt in E.
-        destruct (patom_sound rho unitb_of N _ E) as [A B]. rewrite <- (rho_coef k E). auto.
-      - destruct (nth_error ps a) as [x|] eqn:Ea; [|discriminate].
-        destruct (nth_error ps b) as [y|] eqn:Eb; [|discriminate]. intros [= <-].
-        destruct (agree_nth _ _ _ _ Hag Ea) as [A1 A2]. destruct (agree_nth _ _ _ _ Hag Eb) as [B1 B2].
-        split; [apply pclean_ok, padd_ok; assumption|]. rewrite pclean_sound, padd_sound, A2, B2. reflexivity.
-      - destruct (nth_error ps a) as [x|] eqn:Ea; [|discriminate].
-        destruct (nth_error ps b) as [y|] eqn:Eb; [|discriminate]. intros [= <-].
-        destruct (agree_nth _ _ _ _ Hag Ea) as [A1 A2]. destruct (agree_nth _ _ _ _ Hag Eb) as [B1 B2].
+        destruct (patom_sound rho unitb_of N i E) as [A B]. cbn [good]. rewrite <- (rho_var i E0). auto.
+      - destruct (nv + nc + k <? N)%nat eqn:E; [|discriminate]. intros E'. apply Some_inj_l in E'. subst r.
+        apply Nat.ltb_lt in E.
+        destruct (patom_sound rho unitb_of N _ E) as [A B]. cbn [good]. rewrite <- (rho_coef k E). auto.
+      - apply (bin_sound _ Rplus); [exact Hag|]. intros x y z Hx Hy E. apply Some_inj_l in E. subst z.
+        split; [apply pclean_ok, padd_ok; assumption|]. rewrite pclean_sound, padd_sound. reflexivity.
+      - apply (bin_sound _ Rminus); [exact Hag|]. intros x y z Hx Hy E. apply Some_inj_l in E. subst z.
         split; [apply pclean_ok, padd_ok; [assumption|rewrite pneg_ok; assumption]|].
-        rewrite pclean_sound, padd_sound, pneg_sound, A2, B2. reflexivity.
-      - destruct (nth_error ps a) as [x|] eqn:Ea; [|discriminate].
-        destruct (nth_error ps b) as [y|] eqn:Eb; [|discriminate]. intros [= <-].
-        destruct (agree_nth _ _ _ _ Hag Ea) as [A1 A2]. destruct (agree_nth _ _ _ _ Hag Eb) as [B1 B2].
-        destruct (pmul_sound_ok rho unitb_of rho_unit x y A1 B1) as [M1 M2].
-        split; [apply pclean_ok; exact M2|]. rewrite pclean_sound, M1, A2, B2. reflexivity.
-      - destruct (nth_error ps a) as [x|] eqn:Ea; [|discriminate].
-        destruct (nth_error ps b) as [y|] eqn:Eb; [|discriminate].
-        destruct (pinv unitb_of y) as [yi|] eqn:Ei; [|discriminate]. intros [= <-].
-        destruct (agree_nth _ _ _ _ Hag Ea) as [A1 A2]. destruct (agree_nth _ _ _ _ Hag Eb) as [B1 B2].
+        rewrite pclean_sound, padd_sound, pneg_sound. reflexivity.
+      - apply (bin_sound _ Rmult); [exact Hag|]. intros x y z Hx Hy E. apply Some_inj_l in E. subst z.
+        destruct (pmul_sound_ok rho unitb_of rho_unit x y Hx Hy) as [M1 M2].
+        split; [apply pclean_ok; exact M2|]. rewrite pclean_sound, M1. reflexivity.
+      - apply (bin_sound _ Rdiv); [exact Hag|]. intros x y z Hx Hy E.
+        destruct (pinv unitb_of y) as [yi|] eqn:Ei; [|discriminate]. apply Some_inj_l in E. subst z.
         destruct (pinv_sound rho unitb_of y yi Ei) as [I1 I2].
-        destruct (pmul_sound_ok rho unitb_of rho_unit x yi A1 I2) as [M1 M2].
-        split; [apply pclean_ok; exact M2|]. rewrite pclean_sound, M1, I1, A2, B2. reflexivity.
-      - destruct (nth_error ps a) as [x|] eqn:Ea; [|discriminate]. intros [= <-].
-        destruct (agree_nth _ _ _ _ Hag Ea) as [A1 A2].
+        destruct (pmul_sound_ok rho unitb_of rho_unit x yi Hx I2) as [M1 M2].
+        split; [apply pclean_ok; exact M2|]. rewrite pclean_sound, M1, I1. reflexivity.
+      - destruct (nth_error ps a) as [[x|]|] eqn:Ea; try discriminate; intros E; apply Some_inj_l in E; subst r; [|exact I].
+        destruct (agree_nth _ _ _ _ Hag Ea) as [A1 A2]. cbn [good].
         split; [rewrite pneg_ok; exact A1|]. rewrite pneg_sound, A2. reflexivity.
-      - discriminate.
-      - discriminate.
-      - destruct (nth_error ps a) as [x|] eqn:Ea; [|discriminate].
+      - destruct (nth_error ps a) as [x|]; [|discriminate]. intros E. apply Some_inj_l in E. subst r. exact I.
+      - destruct (nth_error ps a) as [x|]; [|discriminate]. intros E. apply Some_inj_l in E. subst r. exact I.
+      - destruct (nth_error ps a) as [[x|]|] eqn:Ea; try discriminate.
         destruct (nth_error defs atom) as [d|] eqn:Ed; [|discriminate].
-        destruct ((atom <? nc)%nat && (nv + atom <? N)%nat && peqb x d) eqn:E; [|discriminate]. intros [= <-].
+        destruct ((atom <? nc)%nat && (nv + atom <? N)%nat && peqb x d) eqn:E; [|discriminate].
+        intros E'. apply Some_inj_l in E'. subst r.
         apply andb_true_iff in E as [E E3]. apply andb_true_iff in E as [E1 E2].
         apply Nat.ltb_lt in E1, E2.
         destruct (agree_nth _ _ _ _ Hag Ea) as [A1 A2].
-        destruct (patom_sound rho unitb_of N _ E2) as [P1 P2]. split; [exact P2|].
+        destruct (patom_sound rho unitb_of N _ E2) as [P1 P2]. cbn [good]. split; [exact P2|].
         rewrite P1, (rho_defs atom d Ed E1), <- (peqb_sound rho x d E3). exact A2.
     Qed.
 
@@ -444,7 +462,7 @@ Section Check.
       agree ps' (eval_nodes 0%R (fun q _ => Q2R q) Rplus Rminus Rmult Rdiv Ropp sqrt exp var coef vs ns).
     Proof.
       induction ns as [|n r IH]; intros ps vs ps' Hag Hrun; cbn [run eval_nodes] in *.
-      - injection Hrun as <-. exact Hag.
+      - apply Some_inj_l in Hrun. subst ps'. exact Hag.
       - destruct (step ps n) as [p|] eqn:Es; [|discriminate].
         apply (IH (p :: ps) _ ps'); [|exact Hrun].
         constructor; [|exact Hag]. exact (step_sound ps vs n p Hag Es).
@@ -458,7 +476,7 @@ Section Check.
     Proof.
       unfold check_dag, evalR. destruct (run [] ns) as [env|] eqn:Er; [|discriminate].
       intros H pos q Hin. rewrite forallb_forall in H. specialize (H _ Hin). cbn [fst snd] in H.
-      destruct (nth_error env pos) as [p|] eqn:Ep; [|discriminate].
+      destruct (nth_error env pos) as [[p|]|] eqn:Ep; try discriminate.
       pose proof (run_sound ns [] [] env (Forall2_nil _) Er) as Hag.
       destruct (agree_nth _ _ _ _ Hag Ep) as [_ A]. rewrite <- A. apply peqb_sound. exact H.
     Qed.
